@@ -18,7 +18,7 @@ def main():
         name = os.path.basename(r["patch"])
         if "/seeded/" in r["patch"]:
             seeded[r["status"]] += 1
-            if r["status"] != "killed":
+            if r["status"] not in ("killed", "MISSED-known"):
                 bad.append((r["prop"], r["patch"], r["status"]))
             continue
         rows[r["prop"]].append((name[:-6], r["status"], r.get("wall")))
